@@ -44,18 +44,36 @@ def lone_surrogate(s):
         return True
 
 
-def probe_text(p, anyacct):
+def probe_text(p, anyacct, more=False):
     """(text of probe.journal, cursor line, cursor character, line layout id)"""
     q = p["q"]
     u = wcommon.u16len
     k = p["ctx"]
+    # `more`: the less common places in which the same fragment may be typed (a third of the probes): other indents, after
+    # a status mark, inside a virtual posting, after a code, in a cost and in an assertion
     if k == "account":
-        return [(HEAD + "2024-03-01\n    " + q, 3, 4 + u(q), "posting"), (HEAD + "account " + q, 2, 8 + u(q), "directive")]
+        out = [(HEAD + "2024-03-01\n    " + q, 3, 4 + u(q), "posting"), (HEAD + "account " + q, 2, 8 + u(q), "directive")]
+        if more:
+            for pre, lay in (("  ", "posting-indent-2"), ("\t", "posting-tab"), ("    * ", "posting-status"), ("    (", "posting-paren"), ("    ! [", "posting-status-bracket")):
+                out.append((HEAD + "2024-03-01\n" + pre + q, 3, u(pre) + u(q), lay))
+        return out
     if k == "payee":
-        return [(HEAD + "2024-03-01 " + q, 2, 11 + u(q), "header")]
+        out = [(HEAD + "2024-03-01 " + q, 2, 11 + u(q), "header")]
+        if more:
+            for pre, lay in (("2024-03-01 * ", "header-status"), ("2024-03-01 (123) ", "header-code"), ("2024-03-01=2024-03-02 ! (x) ", "header-date2-status-code")):
+                out.append((HEAD + pre + q, 2, u(pre) + u(q), lay))
+        return out
     if k == "commodity":
         pre = "    " + anyacct + "  10 "
-        return [(HEAD + "2024-03-01\n" + pre + q, 3, u(pre) + u(q), "after-amount"), (HEAD + "commodity " + q, 2, 10 + u(q), "directive")]
+        out = [(HEAD + "2024-03-01\n" + pre + q, 3, u(pre) + u(q), "after-amount"), (HEAD + "commodity " + q, 2, 10 + u(q), "directive")]
+        # the amount in front is written in a commodity the workspace already has (a new one would itself become a name)
+        import re as _re
+        have = [r["name"] for r in p["counts"] if _re.match(r"^[A-Za-z]+$", r["name"])]
+        if more and have:
+            w = sorted(have)[0]
+            for pre2, lay in (("    " + anyacct + "  10 " + w + " @ 2 ", "in-cost"), ("    " + anyacct + "  10 " + w + " @@ 20 ", "in-total-cost"), ("    " + anyacct + "  10 " + w + " = 50 ", "in-assertion")):
+                out.append((HEAD + "2024-03-01\n" + pre2 + q, 3, u(pre2) + u(q), lay))
+        return out
     if k == "tagname":
         return [(HEAD + "2024-03-01  ; " + q, 2, 14 + u(q), "header-comment"),
                 (HEAD + "2024-03-01\n    " + anyacct + "  1  ; " + q, 3, u("    " + anyacct + "  1  ; ") + u(q), "posting-comment")]
@@ -72,10 +90,10 @@ def build(c, ws, conf):
     anyacct = accts[0] if accts else "assets:bank"
     ops = [{"op": "open", "file": "probe.journal", "text": HEAD}]
     meta = []
-    for p in sorted(c["probes"], key=lambda p: (p["ctx"], p["tag"], p["q"])):
+    for pi, p in enumerate(sorted(c["probes"], key=lambda p: (p["ctx"], p["tag"], p["q"]))):
         if lone_surrogate(p["q"]) or "?" in p["q"] or "\ufffd" in p["q"]:
             continue        # a prefix cut inside a surrogate pair (TLC prints the lone half as '?'): nobody types that
-        for text, line, ch, layout in probe_text(p, anyacct):
+        for text, line, ch, layout in probe_text(p, anyacct, more=(pi % 3 == 0)):
             ops.append({"op": "change", "file": "probe.journal", "text": text})
             ops.append({"op": "req", "file": "probe.journal", "kind": "completion", "line": line, "char": ch})
             meta.append({"p": p, "op_index": len(ops) - 1, "line": line, "char": ch, "layout": layout, "text": text})
